@@ -80,7 +80,7 @@ def bp_runs(grows):
         for k in range(16 if tier == "quick" else 200):
             rows = c03.random_population(view, rnd, rnd.choice([0, 1, 3, 6, 10, 14]))
             rnd.shuffle(rows)
-            how = {'route': BP_ROUTES[k % 4], 'chunks': 1 + (k // 4) % 3, 'seed': rnd.randint(0, 10 ** 6)}
+            how = {'route': BP_ROUTES[k % 4], 'chunks': 1 + (k // 4) % 4, 'seed': rnd.randint(0, 10 ** 6)}
             if with_globals and k % 2:
                 rows = [dict(r) for r in grows] + rows
                 how['skip'] = len(grows)
